@@ -93,6 +93,28 @@ Theorem C18_collapsed_survives_cleanup : forall (st : store) (h : tid) (ca : lis
 Proof. exact collapsed_survives_cleanup. Qed.
 Print Assumptions C18_collapsed_survives_cleanup.
 
+(* ------------------------------------------------------------------ the collapsed compound keeps its place in the DAG
+   the one task loaded for a computed compound is Task(f, cargs...) itself: same hash, and the ARGUMENTS of the
+   call - so its dependencies are the tasks under those arguments, exactly as for the expansion's entry point *)
+Theorem C18_collapsed_compound_keeps_its_arguments : forall (st : store) (h : tid) (ca : list arg) (body k : jprog),
+  stored st h = true ->
+  In (probe h ca) (l_tasks (load st (Compound h ca body k))) /\
+  tid_of (probe h ca) = h /\ targs (probe h ca) = ca /\ atids_list (targs (probe h ca)) = atids_list ca.
+Proof. exact collapsed_keeps_arguments. Qed.
+Print Assumptions C18_collapsed_compound_keeps_its_arguments.
+
+(* hence `jug invalidate` ([invalidate sel st p]: the selected loaded tasks and every loaded task with one of them under
+   its arguments lose their results) reaches it: for ANY program in which the collapsed compound is loaded after
+   tasks [pre], if a task under its arguments is invalidated the compound's stored value is gone - a following
+   execute expands it again (C18_not_computed_is_expansion) and recomputes it (C18_compound_value) *)
+Theorem C18_invalidate_reaches_collapsed_compound :
+  forall (sel : tid -> bool) (st : store) (p : jprog) (pre post : list task) (h : tid) (ca : list arg) (d : tid),
+  l_tasks (load st p) = pre ++ probe h ca :: post ->
+  In d (atids_list ca) -> In d (invalid_ids sel pre) ->
+  lookup (invalidate sel st p) h = None.
+Proof. exact invalidate_reaches_collapsed. Qed.
+Print Assumptions C18_invalidate_reaches_collapsed_compound.
+
 (* ------------------------------------------------------------------ locks play no part in it
    [run_phases_l locks] is the reload loop of a worker that cannot take the locks in [locks] (held by another
    worker, left behind by a worker killed between storing a result and releasing its lock, or marked failed).
@@ -155,6 +177,20 @@ Example C18_nonvacuous :
    | Some s => functionalb (slog s) && Nat.eqb (List.length (comps s)) 2%nat
    | None => false
    end = true).
+Proof. vm_compute. repeat split; reflexivity. Qed.
+
+(* after the run: invalidating t1 takes the collapsed compound 10 (built from t1) and t4 (built from 10) with it;
+   the inner results 2, 3, 11 are not loaded any more, so they stay; a following execute expands 10 again (11 stays collapsed) and
+   stores 1, 10 (through 11) and 4 again *)
+Example C18_nonvacuous_invalidate :
+  (let st := fst (run_phases 3%nat [] ex_prog) in
+   map tid_of (l_tasks (load st ex_prog)) = [1; 10; 4] /\
+   atids_list (targs (probe 10 [ATask 1])) = [1] /\
+   invalid_ids (Pos.eqb 1) (l_tasks (load st ex_prog)) = [4; 10; 1] /\
+   lookup (invalidate (Pos.eqb 1) st ex_prog) 10 = None /\
+   stored (invalidate (Pos.eqb 1) st ex_prog) 11 = true /\
+   snd (run_phases 3%nat (invalidate (Pos.eqb 1) st ex_prog) ex_prog) = [[1; 10; 4]] /\
+   lookup (fst (run_phases 3%nat (invalidate (Pos.eqb 1) st ex_prog) ex_prog)) 10 = Some (VTup [VInt 5%Z; VInt 4%Z])).
 Proof. vm_compute. repeat split; reflexivity. Qed.
 
 (* with locks: a stale lock on the collapsed compound 10 changes nothing (3 tasks loaded, nothing run);
